@@ -79,7 +79,7 @@ def build_extract(log):
         rc, out = sh(["timeout", "600", "coqc"] + qs + [src], cwd=OCAML)
         if rc != 0:
             return False, out
-        rc, out2 = sh(["ocamlfind", "ocamlopt", "-O2", "-w", "-a", "-package", "str",
+        rc, out2 = sh(["ocamlfind", "ocamlopt", "-O2", "-w", "-a", "-package", "str", "-linkpkg",
                        "model.mli", "model.ml", "driver.ml", "-o", "driver"], cwd=OCAML)
         log("extract+ocaml: rc=%d" % rc)
         return rc == 0, out + out2
